@@ -87,6 +87,9 @@ type pathCtx struct {
 	inInit      int
 	extraModel  map[string]uint64
 	pendingRecs []pendingRec
+	model      map[string]uint64 // a model of the current pc (nil if unknown)
+	known      map[string]uint64 // variables fixed to a constant by the pc
+	lastModel  map[string]uint64
 }
 
 func newPathCtx(prefix []Decision, solver, solver2 *sym.Solver, harness string) *pathCtx {
@@ -132,6 +135,83 @@ func (p *pathCtx) addPC(t *sym.Term) {
 		return
 	}
 	p.pc = append(p.pc, t)
+	p.learn(t)
+	if p.model != nil && sym.Eval(t, p.model) != 1 {
+		p.model = nil
+	}
+}
+
+// learn records variables that the literal fixes to a constant.
+func (p *pathCtx) learn(t *sym.Term) {
+	switch t.Op {
+	case sym.OpAnd:
+		for _, a := range t.Args {
+			p.learn(a)
+		}
+	case sym.OpEq:
+		a, b := t.Args[0], t.Args[1]
+		if a.IsConst() {
+			a, b = b, a
+		}
+		if a.Op == sym.OpVar && b.IsConst() {
+			if p.known == nil {
+				p.known = map[string]uint64{}
+			}
+			p.known[a.Name] = b.Val
+		}
+	case sym.OpVar:
+		if t.W == 0 {
+			if p.known == nil {
+				p.known = map[string]uint64{}
+			}
+			p.known[t.Name] = 1
+		}
+	case sym.OpNot:
+		if a := t.Args[0]; a.Op == sym.OpVar {
+			if p.known == nil {
+				p.known = map[string]uint64{}
+			}
+			p.known[a.Name] = 0
+		}
+	}
+}
+
+// simp substitutes variables fixed by the path condition.
+func (p *pathCtx) simp(t *sym.Term) *sym.Term {
+	if len(p.known) == 0 || t.IsConst() {
+		return t
+	}
+	return sym.Subst(t, p.known)
+}
+
+// checkSat decides pc ∧ extra and caches the model when sat.
+func (p *pathCtx) checkSat(extra *sym.Term) bool {
+	p.flush()
+	p.solver.Push()
+	p.solver.Assert(extra)
+	r := p.solver.Check()
+	p.res.Queries++
+	var m map[string]uint64
+	if r == sym.Sat {
+		vals, err := p.solver.GetValues(p.vars)
+		if err != nil {
+			p.solver.Pop()
+			p.abort("get-value failed: %v", err)
+		}
+		m = make(map[string]uint64, len(vals))
+		for i, v := range p.vars {
+			m[v.Name] = vals[i]
+		}
+	}
+	p.solver.Pop()
+	if r == sym.Unknown {
+		p.abort("solver %s answered unknown (%s)", p.solver.Name, p.solver.LastErr)
+	}
+	if r == sym.Sat {
+		p.lastModel = m
+		return true
+	}
+	return false
 }
 
 // checkWith returns the satisfiability of pc ∧ extra...
@@ -233,6 +313,12 @@ func (p *pathCtx) branch(cond *sym.Term) bool {
 	if cond.IsConst() {
 		return cond.Val == 1
 	}
+	if p.concrete == nil {
+		cond = p.simp(cond)
+		if cond.IsConst() {
+			return cond.Val == 1
+		}
+	}
 	if p.concrete != nil {
 		return sym.Eval(cond, p.concrete) == 1
 	}
@@ -245,25 +331,60 @@ func (p *pathCtx) branch(cond *sym.Term) bool {
 		}
 		return d.B == 1
 	}
-	t := p.checkWith(cond) == sym.Sat
-	f := p.checkWith(sym.Not(cond)) == sym.Sat
+	var t, f bool
+	var mt, mf map[string]uint64
+	if p.model != nil && p.modelCovers() {
+		if sym.Eval(cond, p.model) == 1 {
+			t, mt = true, p.model
+			if f = p.checkSat(sym.Not(cond)); f {
+				mf = p.lastModel
+			}
+		} else {
+			f, mf = true, p.model
+			if t = p.checkSat(cond); t {
+				mt = p.lastModel
+			}
+		}
+	} else {
+		if t = p.checkSat(cond); t {
+			mt = p.lastModel
+		}
+		if f = p.checkSat(sym.Not(cond)); f {
+			mf = p.lastModel
+		}
+	}
 	switch {
 	case t && f:
 		p.sibling(Decision{K: 'b', B: 0})
 		p.record(Decision{K: 'b', B: 1})
 		p.addPC(cond)
+		p.model = mt
 		return true
 	case t:
 		p.record(Decision{K: 'b', B: 1})
 		p.addPC(cond)
+		p.model = mt
 		return true
 	case f:
 		p.record(Decision{K: 'b', B: 0})
 		p.addPC(sym.Not(cond))
+		p.model = mf
 		return false
 	}
 	p.abort("path condition became infeasible at a branch")
 	return false
+}
+
+// modelCovers reports whether the cached model assigns every declared variable.
+func (p *pathCtx) modelCovers() bool {
+	for i := len(p.vars) - 1; i >= 0; i-- {
+		if _, ok := p.model[p.vars[i].Name]; !ok {
+			// new unconstrained variable: any value works as long as the pc does not mention it yet;
+			// alphabet constraints are added with the variable, so be conservative.
+			return false
+		}
+	}
+	return true
 }
 
 // choice forks over n alternatives that are all feasible by construction.
